@@ -41,6 +41,12 @@ def missing_compares(an: Analysis):
 
 
 def _is_missing(an: Analysis, mod: ModuleInfo, fi: FunctionInfo | None, e: ast.AST) -> bool:
+    if isinstance(e, ast.Call) and not e.args and not e.keywords and isinstance(e.func, (ast.Name, ast.Attribute)):
+        # `Missing()`: calling the class goes through MissingType.__call__, which hands out the one instance (C20.1, checked on
+        # every run) - the call denotes MISSING
+        if isinstance(e.func, ast.Name) and fi is not None and an.prog.is_local(fi, e.func.id):
+            return False
+        return an.prog.resolve_dotted(fi if fi is not None else mod, e.func) == MISSING_Q.rsplit(".", 1)[0] + ".Missing"
     if not isinstance(e, (ast.Name, ast.Attribute)):
         return False
     if isinstance(e, ast.Name) and fi is not None and an.prog.is_local(fi, e.id):
@@ -322,8 +328,8 @@ def check(an: Analysis) -> None:
                         continue
                     p = parent(n)
                     ok = fi is None and m is mod and isinstance(p, (ast.Assign, ast.AnnAssign)) and dotted(p.targets[0] if isinstance(p, ast.Assign) else p.target) == "MISSING"
-                    if not ok and r == cls.qualname and not n.args and not n.keywords and any(isinstance(a_, ast.Assert) for a_ in _anc(n)):
-                        ok = True  # `assert Missing() is MISSING`: calling the class goes through MissingType.__call__ (C20.1) and the result is only compared
+                    if not ok and r == cls.qualname and not n.args and not n.keywords and (any(isinstance(a_, ast.Assert) for a_ in _anc(n)) or isinstance(parent(n), ast.Compare)):
+                        ok = True  # `assert Missing() is MISSING` / `x is Missing()`: calling the class goes through MissingType.__call__ (C20.1) and the result is only compared
                     if fi is not None:
                         ob.inst(fi, n)
                     else:
